@@ -256,10 +256,10 @@ def P(pid, instances, **kw):
 
 P("C01", lambda t: g_k2()[1:3] + g_k3() + g_p1() + [I("p2_layout")] + g_p3(t) + g_p4(t) + g_p5() + g_p6()
   + g_t1(t) + g_t2(t) + g_t3_lemma(t) + g_t4())
-P("C02", lambda t: g_k2() + g_p5() + [I("p7_load")] + g_t3_lemma(t) + g_t4())
+P("C02", lambda t: g_k2() + g_p5() + g_p6() + [I("p7_load")] + g_t3_lemma(t) + g_t4())
 P("C03", lambda t: g_k2()[1:2] + g_k3() + g_p1() + [I("p2_layout")] + g_t4_meta() + (g_t4() if t == "thorough" else []))
 P("C04", lambda t: [I("k7_keygen"), I("k7_inject"), I("k8_crypt"), I("k9_create"), I("p7_load"), I("k7_keygen", flags=["--big-endian"])] + g_p5())
-P("C05", lambda t: [I("k2_coin"), I("k2_eval"), I("p2_layout")] + g_p5())
+P("C05", lambda t: [I("k2_coin"), I("k2_eval"), I("p2_layout")] + g_p5() + g_p6())
 BE = ["--big-endian"]     # the codecs are byte-wise: re-run on CBMC's big-endian model
 P("C06", lambda t: [I("k6_store"), I("k6_load"), I("p7_load"), I("p7_store"), I("k6_store", flags=BE), I("k6_load", flags=BE)])
 P("C07", lambda t: g_t4(selffind=(t == "thorough")) + g_t1(t) + g_t2(t) + g_t3_lemma(t))
